@@ -301,7 +301,8 @@ pub fn run_c05(args: &Args) -> i32 {
     let w = World::new();
     let depth: usize = std::env::var("VERIF_C05_DEPTH").ok().and_then(|s| s.parse().ok()).unwrap_or(args.tier.pick(1, 2));
     let pair_depth: usize = args.tier.pick(0, 1);
-    let follow: Vec<usize> = ["nodes_alias_b_values", "edge_1_2_values", "values_1_long", "alias_a_2", "remove_1", "insert_index_kl", "nodes_count2"].iter().map(|n| w.alpha.iter().position(|a| a.0 == *n).unwrap()).collect();
+    let follow_names: Vec<&str> = args.tier.pick(vec!["nodes_alias_b_values", "values_1_long", "remove_1"], vec!["nodes_alias_b_values", "edge_1_2_values", "values_1_long", "alias_a_2", "remove_1", "insert_index_kl", "nodes_count2"]);
+    let follow: Vec<usize> = follow_names.iter().map(|n| w.alpha.iter().position(|a| a.0 == *n).unwrap()).collect();
     let variants = [Variant::File, Variant::Mapped, Variant::Memory, Variant::AnyMapped];
     let states = DistinctCounter::default();
     let transitions = AtomicU64::new(0);
@@ -430,6 +431,6 @@ pub fn run_c05(args: &Args) -> i32 {
     report.set("variants", json!(variants.iter().map(|v| v.name()).collect::<Vec<_>>()));
     report.set("maintenance_ops", json!(MAINTS.iter().map(|m| format!("{m:?}")).collect::<Vec<_>>()));
     report.set("exhaustive", json!(true));
-    report.set("rule", json!("at every node of the history tree (all histories of <= depth steps over H from 4 base states) each maintenance operation (and every ordered pair, for histories up to the stated length) is applied to a freshly replayed database; the full ordered dump must equal that of the never-maintained database, and must still be equal after each of 7 further mutating steps"));
+    report.set("rule", json!("at every node of the history tree (all histories of <= depth steps over H from 4 base states) each maintenance operation (and every ordered pair, for histories up to the stated length) is applied to a freshly replayed database; the full ordered dump must equal that of the never-maintained database, and must still be equal after each of 3 (quick) / 7 (thorough) further mutating steps"));
     report.finish()
 }
